@@ -48,7 +48,17 @@ func c17TypeOK(typ string, inName string, v zygo.Sexp) bool {
 		return ok
 	case "In":
 		h, ok := v.(*zygo.SexpHash)
-		return ok && h.TypeName == inName
+		if !ok || h.TypeName != inName {
+			return false
+		}
+		// the inner struct is declared again later with the single field z: an instance of that later
+		// declaration is not a value of the type the outer struct's field was declared with
+		for _, k := range h.KeyOrder {
+			if sym, isSym := k.(*zygo.SexpSymbol); isSym && sym.Name() == "z" {
+				return false
+			}
+		}
+		return true
 	case "*In":
 		p, ok := v.(*zygo.SexpPointer)
 		if !ok {
@@ -98,7 +108,7 @@ func c17Inspect(env *zygo.Zlisp, name string, decl c17decl, inName string) (prob
 	return
 }
 
-var c17Values = []string{"1", "-7", `"str"`, "2.5", "true", "nil", "[]", "[1 2]", `["a"]`, "[1.5]", "(IN q:1)", "(TT a:1)", "'c'", "(quote sym)", "(list 1 2)", "(hash q:1)", "12ULL", `[1 "a"]`, "(IN)", "(& (IN q:2))", "(& r)", "(& 5)", "(& (EE))", "int64", "[nil 1]"}
+var c17Values = []string{"1", "-7", `"str"`, "2.5", "true", "nil", "[]", "[1 2]", `["a"]`, "[1.5]", "(IN q:1)", "(TT a:1)", "'c'", "(quote sym)", "(list 1 2)", "(hash q:1)", "12ULL", `[1 "a"]`, "(IN)", "(& (IN q:2))", "(& r)", "(& 5)", "(& (EE))", "int64", "[nil 1]", `[(hash k:"bad")]`, "[(IN q:1)]", "[(EE)]", "(IN z:1)", "oldin"}
 
 var c17Good = map[string][]string{
 	"int64": {"1", "-7", "0"}, "string": {`"str"`, `""`}, "float64": {"2.5", "-0.5"}, "bool": {"true", "false"},
@@ -112,6 +122,7 @@ var c17Routes = []string{
 	`(def r (unjson (raw (concat "{\"Atype\":\"TT\", \"%f\":" (raw2str (json %v)) ", \"zKeyOrder\":[\"%f\"]}"))))`,
 	`(def r (unmsgpack (msgpack (hash Atype: "TT" %f: %v))))`,
 	"{r.in.q = %v}", "(hset r.in q: %v)", "{r.xs[0] = %v}", "{r.in = (IN q: %v)}",
+	"(derefSet (& r) %v)", "(derefSet (& r.in) %v)", "(derefSet (& keep) (IN q: 1))",
 }
 
 func init() {
@@ -143,7 +154,7 @@ func c17Run(c *core.Ctx, i int) *core.Result {
 	s := NewSutRun(true)
 	declOld := c17decl{"a": "int64", "s": "string", "f": "float64", "b": "bool", "xs": "[]int64", "ss": "[]string", "in": "In", "pp": "*In"}
 	declNew := c17decl{"a": "string", "f": "float64", "nw": "int64", "xs": "[]string", "in": "In", "pp": "*In"}
-	setup := sub(`(struct IN [(field q: int64)]) (struct EE []) (struct TT [(field a: int64) (field s: string) (field f: float64) (field b: bool) (field xs: ([]int64)) (field ss: ([]string)) (field in: IN) (field pp: (* IN))]) (def r (TT a:1 s:"x" xs:[4 5] in:(IN q:3))) (def keep r) (def e0 (EE))`)
+	setup := sub(`(struct IN [(field q: int64)]) (struct EE []) (struct TT [(field a: int64) (field s: string) (field f: float64) (field b: bool) (field xs: ([]int64)) (field ss: ([]string)) (field in: IN) (field pp: (* IN))]) (def r (TT a:1 s:"x" xs:[4 5] in:(IN q:3))) (def keep r) (def e0 (EE)) (def oldin (IN q:5))`)
 	var hist []string
 	hist = append(hist, setup)
 	if o := s.Eval(setup+"\n", 0); o.Err != nil || o.Panic != "" {
@@ -162,6 +173,7 @@ func c17Run(c *core.Ctx, i int) *core.Result {
 	}
 	cur := declOld
 	redeclared := false
+	inRedeclared := false
 	fields := []string{"a", "s", "f", "b", "xs", "ss", "in", "zz", "nw", "pp"}
 	steps := thorN(c, 25, 40)
 	rejected, accepted := 0, 0
@@ -195,6 +207,10 @@ func c17Run(c *core.Ctx, i int) *core.Result {
 			src = sub(`(struct TT [(field a: string) (field f: float64) (field nw: int64) (field xs: ([]string)) (field in: IN) (field pp: (* IN))]) (def r2 (TT a:"new" nw:5 in:(IN q:1)))`)
 			redeclared = true
 			res.Ev("redeclarations", 1)
+		case redeclared && !inRedeclared && r.N(3) == 0:
+			// the inner struct is declared again too, with another field: instances of it are a different type
+			src = sub(`(struct IN [(field z: int64)])`)
+			inRedeclared = true
 		case r.N(12) == 0: // a struct declared without fields accepts no key of any kind
 			src = sub([]string{`(hset e0 "k" 1)`, "(hset e0 5 1)", "(hset e0 [1 2] 1)", `{e0["k"] = 1}`, "{e0[3] = 1}", "(hset e0 k: 1)", "(set e0.k 1)", "{e0.k = 1}", "(hset e0 (quote k) 1)", "(hset e0 'c' 1)", `(def e0 (EE))`}[r.N(11)])
 		case r.N(3) == 0: // a write that must be accepted
@@ -217,6 +233,14 @@ func c17Run(c *core.Ctx, i int) *core.Result {
 			}
 			good := c17Good[d[f]]
 			v := good[r.N(len(good))]
+			if inRedeclared { // the literal (IN q: …) now denotes the later declaration: use the instance made before it
+				switch d[f] {
+				case "In":
+					v = "oldin"
+				case "*In":
+					v = "(& oldin)"
+				}
+			}
 			route := []string{"(hset TGT %f: %v)", "(set TGT.%f %v)", "{TGT.%f = %v}", "{TGT[(quote %f)] = %v}", "(hset TGT [%f:] %v)", "(hset TGT (quote %f) %v)", "(= TGT.%f %v)", "(hset (* (& TGT)) %f: %v)"}[r.N(8)]
 			src = sub(strings.ReplaceAll(strings.ReplaceAll(strings.ReplaceAll(route, "TGT", target), "%f", f), "%v", v))
 			matching = true
